@@ -255,6 +255,15 @@ def run(ctx):
                 ctx.ob(R2, vt.qual, "None / default sentinel pass through unchanged", okv, name, witness=o.st.witness(), node=vt.node)
             else:
                 ok = okv and le0 is False and isbool is False and "float" in ev
+                # `value <= 0` being false does not make a number of it: NaN compares false with everything.  The accepting path
+                # must hold a decision NaN cannot pass: `value > 0` true, `value != value` false / `value == value` true, or isnan() false
+                nan_proof = o.st.ts.get(("cmp", pv, ">", "0")) is True or o.st.ts.get(("cmp", pv, "!=", pv)) is False or o.st.ts.get(("cmp", pv, "==", pv)) is True \
+                    or any(isinstance(k_, str) and "isnan(" in k_ and pv in k_ and v_[0] is False for k_, v_ in o.st.facts.items())
+                if ("nan", nan_proof) not in seen:
+                    seen.add(("nan", nan_proof))
+                    ctx.ob(R2, vt.qual, "an accepted value has passed a test that NaN fails (not-a-number is a non-number)", nan_proof,
+                           "" if nan_proof else "`value <= 0` is false for float('nan'): Timeout(total=float('nan')) is built, read_timeout / min() arithmetic becomes order-dependent and the "
+                           "first socket.settimeout(nan) raises a raw ValueError at request time instead of the Timeout being rejected when it is built", witness=o.st.witness(), node=vt.node)
                 ctx.ob(R2, vt.qual, f"accepted value: not bool, float()-convertible, > 0 (tests on path: bool={isbool}, <=0:{le0}, float={'float' in ev})", ok,
                        "" if ok else ("zero is accepted: the positivity test must be `value <= 0`" if lt0 is False and le0 is None else "a value is accepted without having passed all three tests"), witness=o.st.witness(), node=vt.node)
         elif name in ("raise:ValueError",):
